@@ -797,4 +797,163 @@ theorem run_outcomes (I M : Nat) (hI0 : 0 < I) (hI : I + 1 < 2^32) (hM0 : 0 < M)
 theorem inv_init (I : Nat) : Inv I St.init := by
   intro h; simp [St.init] at h
 
+/-! ## One call = the same request made in pieces of `GENERATE_MAXLEN` bytes (`readChunked`) -/
+
+section Chunks
+open Percival.Model.Entropy (readLoop readChunked chunkSizes prepend reseed generate)
+
+theorem readLoop_zero (c : Cfg) (f : Nat) (d : Drbg) (o : Oracle) : readLoop c f d o 0 = (.ok [], d, o) := by
+  cases f <;> simp [readLoop]
+
+/-- one turn of the `while` loop -/
+theorem readLoop_succ (c : Cfg) (f : Nat) (d : Drbg) (o : Oracle) (n : Nat) (hn : n ≠ 0) :
+    readLoop c (f+1) d o n =
+      match (if d.reseedCounter.toNat > c.reseedInterval then reseed c d o else (some d, o)) with
+      | (none, o') => (.fail, d, o')
+      | (some d, o) =>
+        match generate c d (if n > c.generateMaxlen then c.generateMaxlen else n) with
+        | none => (.abort, d, o)
+        | some (out, d) =>
+          prepend out (readLoop c f d o (n - (if n > c.generateMaxlen then c.generateMaxlen else n))) := by
+  simp only [readLoop, hn, if_false]
+  rcases (if d.reseedCounter.toNat > c.reseedInterval then reseed c d o else (some d, o)) with ⟨_ | d1, o1⟩
+  · rfl
+  · simp only
+    rcases generate c d1 (if n > c.generateMaxlen then c.generateMaxlen else n) with _ | ⟨out, d2⟩
+    · rfl
+    · simp only [prepend]
+      rcases readLoop c f d2 o1 (n - (if n > c.generateMaxlen then c.generateMaxlen else n)) with ⟨r | _ | _, d3, o3⟩ <;> rfl
+
+/-- the loop does not depend on its fuel once there is enough of it -/
+theorem readLoop_fuel (c : Cfg) (hM : 0 < c.generateMaxlen) :
+    ∀ (f1 f2 : Nat) (d : Drbg) (o : Oracle) (n : Nat), n ≤ f1 → n ≤ f2 →
+      readLoop c f1 d o n = readLoop c f2 d o n := by
+  intro f1
+  induction f1 with
+  | zero =>
+    intro f2 d o n h1 h2
+    have : n = 0 := by omega
+    subst this
+    rw [readLoop_zero, readLoop_zero]
+  | succ f1 ih =>
+    intro f2 d o n h1 h2
+    by_cases hn : n = 0
+    · subst hn; rw [readLoop_zero, readLoop_zero]
+    · obtain ⟨f2, rfl⟩ : ∃ k, f2 = k + 1 := ⟨f2 - 1, by omega⟩
+      have key : ∀ d' o', readLoop c f1 d' o' (n - (if n > c.generateMaxlen then c.generateMaxlen else n))
+          = readLoop c f2 d' o' (n - (if n > c.generateMaxlen then c.generateMaxlen else n)) := by
+        intro d' o'
+        apply ih <;> (split <;> omega)
+      rw [readLoop_succ c f1 d o n hn, readLoop_succ c f2 d o n hn]
+      simp only [key]
+
+/-- a request of more than `GENERATE_MAXLEN` bytes: the loop serves the first `GENERATE_MAXLEN` bytes exactly as a
+    request for those alone, and goes on from the state and OS answers that request leaves -/
+theorem readLoop_split (c : Cfg) (hM : 0 < c.generateMaxlen) (d : Drbg) (o : Oracle) (n : Nat)
+    (hn : n > c.generateMaxlen) :
+    readLoop c n d o n =
+      match readLoop c c.generateMaxlen d o c.generateMaxlen with
+      | (.ok out, d', o') => prepend out (readLoop c (n - c.generateMaxlen) d' o' (n - c.generateMaxlen))
+      | r => r := by
+  obtain ⟨k, rfl⟩ : ∃ k, n = k + 1 := ⟨n - 1, by omega⟩
+  have hfirst : readLoop c c.generateMaxlen d o c.generateMaxlen =
+      readLoop c (c.generateMaxlen - 1 + 1) d o c.generateMaxlen := by
+    rw [Nat.sub_add_cancel hM]
+  rw [hfirst, readLoop_succ c k d o (k+1) (by omega), readLoop_succ c _ d o c.generateMaxlen (by omega)]
+  simp only [hn, if_true, Nat.lt_irrefl, if_false, Nat.sub_self, readLoop_zero, gt_iff_lt]
+  have key : ∀ d' o', readLoop c k d' o' (k + 1 - c.generateMaxlen)
+      = readLoop c (k + 1 - c.generateMaxlen) d' o' (k + 1 - c.generateMaxlen) := by
+    intro d' o'
+    apply readLoop_fuel c hM <;> omega
+  simp only [key]
+  split
+  · rfl
+  · split
+    · rfl
+    · simp [prepend]
+
+/-- the same at the level of `crypto_entropy_read` (instantiation included) -/
+theorem read_split (c : Cfg) (hM : 0 < c.generateMaxlen) (st : St) (o : Oracle) (n : Nat)
+    (hn : n > c.generateMaxlen) :
+    Model.Entropy.read c st o n =
+      match Model.Entropy.read c st o c.generateMaxlen with
+      | (.ok out, st', o') => prepend out (Model.Entropy.read c st' o' (n - c.generateMaxlen))
+      | r => r := by
+  unfold Model.Entropy.read
+  by_cases hi : st.instantiated = false
+  · simp only [hi, if_true]
+    rcases hinst : Model.Entropy.instantiate c o with ⟨_ | d, o1⟩
+    · rfl
+    · simp only [readLoop_split c hM d o1 n hn]
+      rcases h1 : readLoop c c.generateMaxlen d o1 c.generateMaxlen with ⟨r | _ | _, d1, o2⟩
+      · simp only [Bool.true_eq_false, if_false]
+        rcases h2 : readLoop c (n - c.generateMaxlen) d1 o2 (n - c.generateMaxlen) with ⟨r2 | _ | _, d2, o3⟩ <;> rfl
+      · rfl
+      · rfl
+  · obtain ⟨dr, inst⟩ := st
+    have : inst = true := by simpa using hi
+    subst this
+    simp only [Bool.true_eq_false, if_false, readLoop_split c hM dr o n hn]
+    rcases h1 : readLoop c c.generateMaxlen dr o c.generateMaxlen with ⟨r | _ | _, d1, o2⟩
+    · simp only [Bool.true_eq_false, if_false]
+      rcases h2 : readLoop c (n - c.generateMaxlen) d1 o2 (n - c.generateMaxlen) with ⟨r2 | _ | _, d2, o3⟩ <;> rfl
+    · rfl
+    · rfl
+
+/-- **one call = the chunked sequence**, for every configuration with a positive piece size, every state (instantiated
+    or not, any counter), every script of OS answers (failures anywhere) and every length: outcome (bytes, or the
+    failure), state afterwards and unused OS answers are those of the calls for `GENERATE_MAXLEN` bytes each and the
+    final shorter one, stopped at the first that fails -/
+theorem readChunked_eq (c : Cfg) (hM : 0 < c.generateMaxlen) :
+    ∀ (fuel : Nat) (st : St) (o : Oracle) (n : Nat), n ≤ fuel → readChunked c fuel st o n = Model.Entropy.read c st o n := by
+  intro fuel
+  induction fuel with
+  | zero =>
+    intro st o n h
+    have : n = 0 := by omega
+    subst this
+    simp [readChunked]
+  | succ fuel ih =>
+    intro st o n h
+    by_cases hn : n > c.generateMaxlen
+    · simp only [readChunked, hn, if_true]
+      rw [read_split c hM st o n hn]
+      rcases h1 : Model.Entropy.read c st o c.generateMaxlen with ⟨r | _ | _, st1, o1⟩
+      · simp only
+        rw [ih st1 o1 (n - c.generateMaxlen) (by omega)]
+      · rfl
+      · rfl
+    · simp only [readChunked, hn, if_false]
+
+/-- the calls of the chunked sequence: none asks for more than `GENERATE_MAXLEN`, all but the last for exactly that,
+    together for `n` bytes -/
+theorem chunkSizes_spec (M : Nat) (hM : 0 < M) : ∀ (fuel n : Nat), n ≤ fuel →
+    (∀ k ∈ chunkSizes M fuel n, k ≤ M) ∧ (chunkSizes M fuel n).sum = n ∧
+    (chunkSizes M fuel n).length = (n - 1) / M + 1 := by
+  intro fuel
+  induction fuel with
+  | zero =>
+    intro n h
+    have : n = 0 := by omega
+    subst this
+    simp [chunkSizes]
+  | succ fuel ih =>
+    intro n h
+    by_cases hn : n > M
+    · obtain ⟨i1, i2, i3⟩ := ih (n - M) (by omega)
+      simp only [chunkSizes, hn, if_true, List.mem_cons, List.sum_cons, List.length_cons]
+      refine ⟨?_, by omega, ?_⟩
+      · rintro k (rfl | hk)
+        · exact Nat.le_refl _
+        · exact i1 k hk
+      · rw [i3]
+        have : n - 1 = (n - M - 1) + M := by omega
+        rw [this, Nat.add_div_right _ hM]
+    · simp only [chunkSizes, hn, if_false, List.mem_singleton, List.sum_singleton, List.length_singleton]
+      refine ⟨by rintro k rfl; omega, trivial, ?_⟩
+      have : (n - 1) / M = 0 := Nat.div_eq_of_lt (by omega)
+      omega
+
+end Chunks
+
 end Percival.Proofs.Entropy
